@@ -1350,7 +1350,26 @@ red_apply (redspec * rs, void *in, void *inout)
   if (rs->ux != NULL) {
     int                 len = rs->count;
     MPI_Datatype        h = rs->dt->handle;
-    rs->ux->fn (in, inout, &len, &h);
+    /* an MPI library may apply a user function piecewise (pipelined / segmented reductions call it with len < count
+       on consecutive element ranges); every second application of a buffer of two or more elements is cut into two
+       or three pieces at element boundaries chosen by the run's generator */
+    if (rs->count >= 2 && (prng_next () & 1)) {
+      size_t              ext = rs->bytes / (size_t) rs->count;
+      int                 pieces = 2 + (int) (prng_next () % 2u), done = 0, k;
+      for (k = 0; k < pieces && done < rs->count; ++k) {
+        int                 rest = rs->count - done;
+        len = (k == pieces - 1 || rest == 1) ? rest : 1 + (int) (prng_next () % (u64) (rest - 1));
+        rs->ux->fn ((char *) in + (size_t) done * ext, (char *) inout + (size_t) done * ext, &len, &h);
+        done += len;
+      }
+      if (done < rs->count) {
+        len = rs->count - done;
+        rs->ux->fn ((char *) in + (size_t) done * ext, (char *) inout + (size_t) done * ext, &len, &h);
+      }
+    }
+    else {
+      rs->ux->fn (in, inout, &len, &h);
+    }
   }
   else {
     int                 e =
